@@ -1,10 +1,10 @@
 (* C03 - no API call sequence corrupts memory, invokes undefined behaviour or leaks.
-   Theorems about the pointer-level models coq/Mem/{PropList,ParamSlots,AddArrays}.v (the rest of
+   Theorems about the pointer-level models coq/Mem/{PropList,ParamSlots,DataAlloc,AddArrays}.v (the rest of
    the API is covered by the sanitizer enumeration of checks/C03.py only: support, not proof). *)
 Require Import List ZArith.
 Import ListNotations.
 Require Import LV.Mem.Alloc LV.Mem.PropList LV.Mem.PropListProofs LV.Mem.ParamSlots LV.Mem.ParamProofs
-               LV.Mem.AddArrays LV.Mem.AddArraysProofs.
+               LV.Mem.AddArrays LV.Mem.AddArraysProofs LV.Mem.DataAlloc LV.Mem.DataProofs.
 Open Scope Z_scope.
 
 (* vnaproperty list container: every op sequence, every integer index, with or without one failing
@@ -70,3 +70,24 @@ Print Assumptions add_arrays_d50_refuted.
 Theorem add_arrays_d48_refuted : exists a s, valid_new a /\ add_arrays Orig a s = Fault OOB.
 Proof. exact add_arrays_d48_refuted_lemma. Qed.
 Print Assumptions add_arrays_d48_refuted.
+
+(* vnadata allocation skeleton (vnadata_alloc, _vnadata_extend_p/m/f as driven by vnadata_resize,
+   vnadata_free), both z0 modes: every sequence of resizes with arbitrary integer ports / cells /
+   frequencies, with or without one failing allocation, never faults and frees everything *)
+Theorem vdata_no_fault : forall pf ops k f, dhistory Fixed pf ops (start k) <> Fault f.
+Proof. exact vdata_no_fault_lemma. Qed.
+Print Assumptions vdata_no_fault.
+
+Theorem vdata_no_leak : forall pf ops k os s', dhistory Fixed pf ops (start k) = Ok (os, s') -> live s' = [].
+Proof. exact vdata_no_leak_lemma. Qed.
+Print Assumptions vdata_no_leak.
+
+Theorem vdata_inv_satisfiable :
+  exists d s, DInv d s /\ fal d = 3%nat /\ pal d = 2%nat /\ perf d = true /\ length (live s) = 10%nat.
+Proof. exact DInv_satisfiable. Qed.
+Print Assumptions vdata_inv_satisfiable.
+
+(* D7 as first read (repaired): uninitialised z0 row pointers reach realloc *)
+Theorem vdata_extend_f_orig_refuted : exists ops f, dhistory Orig true ops (start None) = Fault f.
+Proof. exact vdata_extend_f_orig_refuted_lemma. Qed.
+Print Assumptions vdata_extend_f_orig_refuted.
